@@ -21,7 +21,9 @@ RULE = (
     "PublicChatMessage, PrivateChatMessage; plus run-time changes of settings.users.blocked between messages "
     "(in-place set / change of flags / delete as USAGE.rst documents, and assignment of a whole new dict), so that a "
     "sender is blocked / unblocked for a kind AFTER messages of that sender and kind were already filtered; the "
-    "oracle uses the block list as it is when the message is processed. Every stats carrier (JoinRoom user data, UserJoinedRoom, GetUserStats, "
+    "oracle uses the block list as it is when the message is processed; and run-time edits of "
+    "settings.credentials.username (to the name of another user of the history or a foreign name) - the fold keeps "
+    "the name the client logged in with for everything 'about us'. Every stats carrier (JoinRoom user data, UserJoinedRoom, GetUserStats, "
     "AddUser) draws each of the four counters from {0 (weight 1/3), two small values, a medium one, one near the "
     "uint32 limit}, so a counter first reported as 0 and a counter dropping to 0 for a known user are common. "
     "Each is sent as a real frame by the simulated server to ONE real logged-in SoulSeekClient (virtual loop, "
@@ -57,6 +59,8 @@ ASSUMPTIONS = [
     "are re-announced by the join message that makes the user referenced",
     "settings.users.blocked may be changed while the client runs, in place or by assignment (USAGE.rst: 'changes to "
     "this list will automatically be picked up'); the change is effective for the next message (5 ms later)",
+    "the logged-in user is the session user ('me') until the next login: editing settings.credentials.username while "
+    "logged in does not change who own membership / operator notifications and RoomList are about",
     "statistics fold: the last announced value of each counter wins, 0 included (0 files / 0 uploads are real "
     "values; `None` only means never announced); an unsolicited AddUser reply is folded like the solicited one "
     "(status, stats, country when the user exists; nothing otherwise) and emits no public Room*/User* event",
@@ -82,10 +86,14 @@ CHAT_OPS = CHAT_ROOM_OPS + ['private_msg']
 # not server messages: the application changes settings.users.blocked while the client runs (USAGE.rst "Blocking
 # Users": in place; also by assigning a whole new dict)
 BLOCK_OPS = ['block_set', 'block_del', 'block_assign']
+# also not a server message: the application edits settings.credentials.username while logged in (e.g. to prepare
+# the next login); the logged-in user stays 'me' until the next login, which is what the fold keeps using
+CRED_NAMES = ['me', 'u1', 'u2', 'zz']
+SETTINGS_OPS = BLOCK_OPS + ['cred_name']
 FLAG_CHOICES = [0, F_PRIVATE, F_PRIVATE, F_ROOM, F_ROOM, 3, 4, 60, 63]
 OPS = (['room_list', 'join', 'user_joined', 'tickers', 'ticker_added', 'status', 'stats', 'add_user', 'add_priv',
         'priv_users',
-        'check_priv', 'private_msg'] + ROOM_OPS + ROOM_USER_OPS + ROOM_USERS_OPS + CHAT_ROOM_OPS + BLOCK_OPS)
+        'check_priv', 'private_msg'] + ROOM_OPS + ROOM_USER_OPS + ROOM_USERS_OPS + CHAT_ROOM_OPS + SETTINGS_OPS)
 
 EVENT_CLASSES = [
     'RoomListEvent', 'RoomMessageEvent', 'PublicMessageEvent', 'PrivateMessageEvent', 'RoomTickersEvent',
@@ -158,6 +166,8 @@ def _op(draw, kind, room_bias, user_bias=None):
                 's': draw(_stat), 'c': draw(st.integers(0, 2))}
     if kind == 'add_priv':
         return {'op': kind, 'u': draw(_user)}
+    if kind == 'cred_name':
+        return {'op': kind, 'n': draw(st.sampled_from([1, 1, 2, 3, 3, 0]))}
     if kind == 'block_set':
         return {'op': kind, 'u': draw(_user), 'f': draw(st.sampled_from(FLAG_CHOICES))}
     if kind == 'block_del':
@@ -173,7 +183,7 @@ LIFECYCLE = ['priv_users', 'priv_users', 'add_priv', 'status', 'status', 'stats'
              'user_joined',
              'user_left', 'user_left', 'join', 'leave', 'room_list']      # (weighted)
 ROLES = ['members', 'operators', 'grant_member', 'revoke_member', 'member_granted', 'member_revoked', 'grant_op',
-         'revoke_op', 'op_granted', 'op_revoked', 'room_list', 'join']
+         'revoke_op', 'op_granted', 'op_revoked', 'room_list', 'join', 'cred_name', 'cred_name']
 
 
 # chat of every kind interleaved with run-time changes of the block list (weighted towards messages)
@@ -298,6 +308,8 @@ def _sanitise(case):
             o['us'] = _ilist(d.get('us'), 3)
         elif k == 'check_priv':
             o['n'] = _i(d.get('n'), 100000)
+        elif k == 'cred_name':
+            o['n'] = _i(d.get('n'), len(CRED_NAMES))
         elif k == 'block_set':
             o['u'], o['f'] = _i(d.get('u'), 3), _i(d.get('f'), 64)
         elif k == 'block_del':
@@ -429,6 +441,7 @@ class Replica:
         self.users['me'] = dict(me_view)
         self.src = {n: {f: 'initial' for f in USER_FIELDS} for n in USERS}
         self.blocked = dict(zip(USERS, blocked))
+        self.configured_name = 'me'
         self.time_left = None
 
     def room(self, name, private=False):
@@ -578,6 +591,8 @@ class Replica:
         elif k == 'check_priv':
             self.time_left = o['n']
             ev.append(('PrivilegesUpdateEvent', None, None, o['n']))
+        elif k == 'cred_name':
+            self.configured_name = CRED_NAMES[o['n']]      # nothing else: the session user is still 'me'
         elif k == 'block_set':
             self.blocked[un] = o['f']
             w(un, 'blocked')
@@ -690,11 +705,13 @@ class _LogProxy:
         return getattr(self._real, name)
 
 
-def _apply_block_op(settings, o):
-    """What an application does to (un)block a user while the client runs."""
+def _apply_settings_op(settings, o):
+    """What an application does to its settings while the client runs: (un)block a user, edit the username."""
     from aioslsk.user.model import BlockingFlag
     k = o['op']
-    if k == 'block_set':
+    if k == 'cred_name':
+        settings.credentials.username = CRED_NAMES[o['n']]
+    elif k == 'block_set':
         settings.users.blocked[USERS[o['u']]] = BlockingFlag(o['f'])            # in place (add / change flags)
     elif k == 'block_del':
         if USERS[o['u']] in settings.users.blocked:
@@ -769,15 +786,17 @@ def run_case(case) -> CaseResult:
                 expected, _ = replica.apply(o)
                 noop = all(before[n] == _room_view(replica.rooms.get(n)) for n in ROOMS)
                 block_now = dict(replica.blocked)      # the block list as it is when the message is processed
-                if k in BLOCK_OPS:
-                    _apply_block_op(settings, o)
-                    block_changed = True
+                if k in SETTINGS_OPS:
+                    _apply_settings_op(settings, o)
+                    block_changed = block_changed or k in BLOCK_OPS
                 else:
                     world.server.send(_build(o))
                 await asyncio.sleep(0.005)
                 where = f'step {step} {o}'
                 # a filter that ignores run-time changes of the list is its own root cause
                 rt = ':block-list-changed-at-runtime' if (block_changed and k in CHAT_OPS) else ''
+                # views keyed on the configured instead of the logged-in name are their own root cause, too
+                cn = ':configured-username-changed' if replica.configured_name != 'me' else ''
 
                 # ---- events ------------------------------------------------
                 got = rec.drain()
@@ -817,7 +836,7 @@ def run_case(case) -> CaseResult:
                     have = rooms.get(n) or _room_view(None)
                     for f in ROOM_FIELDS:
                         if want[f] != have[f]:
-                            violate(f'C19/room-view:{f}:after={k}',
+                            violate(f'C19/room-view:{f}:after={k}{cn}',
                                     f'{where}: room {n} {f}: client has {have[f]!r}, the announcements imply '
                                     f'{want[f]!r} (room in client: {rooms.get(n)})')
                             # re-synchronise so that the divergence is reported once, at its origin
@@ -884,6 +903,10 @@ def run_case(case) -> CaseResult:
     filtered_once = set()       # (user, flag bit) for which a message was already let through / dropped
     for o in ops:
         prev = {n: rep.users[n]['stats'] for n in USERS}
+        if rep.configured_name != 'me' and o['op'] in ('member_granted', 'member_revoked', 'op_granted',
+                                                        'op_revoked', 'room_list'):
+            chat_labels.add('own-role-message-after-configured-username-changed:' + (
+                'to-name-in-history' if rep.configured_name in USERS else 'to-foreign-name'))
         if o['op'] in CHAT_OPS:
             bit = F_PRIVATE if o['op'] == 'private_msg' else F_ROOM
             un, kindname = USERS[o['u']], ('private' if bit == F_PRIVATE else 'room')
@@ -935,6 +958,21 @@ def run_shard(ctx):
 
 # one deterministic case per genuine-defect kind found on the pinned tree (regressions once fixed)
 KNOWN_REPLAYS = {
+    # regression: own grants / revokes concern the logged-in user even after settings.credentials.username was edited
+    'C19/room-view:configured-username-changed': {
+        'blocked': [0, 0, 0], 'ops': [
+            {'op': 'member_granted', 'r': 0},
+            {'op': 'op_granted', 'r': 0},
+            {'op': 'grant_member', 'r': 0, 'u': 1},
+            {'op': 'cred_name', 'n': 1},
+            {'op': 'op_revoked', 'r': 0},
+            {'op': 'member_revoked', 'r': 0},
+            {'op': 'member_granted', 'r': 1},
+            {'op': 'op_granted', 'r': 1},
+            {'op': 'cred_name', 'n': 3},
+            {'op': 'room_list', 'public': [], 'owned': [0], 'member': [1], 'operated': [1]},
+            {'op': 'op_revoked', 'r': 1},
+            {'op': 'member_granted', 'r': 0}]},
     # regression: the block list is consulted as it is when the message arrives (in-place add / change / delete and
     # whole-dict assignment, room / public / private messages, after the sender was already filtered once)
     'C19/event:block-list-changed-at-runtime': {
